@@ -34,6 +34,13 @@ CHECKS['C05'] = dict(
          'evaluation; plus every shipped group with Cp data. Exploration with measured tolerances (S: 1e-4 of the path integral of |Cp/T|, because the code uses quad at default tolerance).',
     note='Trusted: numpy Gauss-Legendre nodes; scipy spline evaluation (the integrand is the object\'s own Cp/R, its shape between knots is not asserted).',
     ref='DESIGN.md C05')
+CHECKS['C06'] = dict(
+    technique='Hypothesis boundary-directed temperatures against a range-validity predicate (raise / warn / finite real) over synthetic correlations, synthetic estimates and all shipped groups',
+    text='Single correlations and estimates over 1-6 generated constituents (nested, overlapping, touching, disjoint, undeclared ranges) and every shipped group are evaluated for Cp/R, H/RT, S/R, G/RT at '
+         'nextafter/1e-9-relative neighbours of every bound, at the bounds, far outside, 0, negative and +inf. Inside: finite real; outside: exception, or IncompleteDataWarning only via constituents without '
+         'Cp data; the estimate range must equal the intersection. Exploration.',
+    note='Trusted: Python warnings machinery (catch_warnings, filter always). Constituents with Cp data but no declared range are judged on their table span only.',
+    ref='DESIGN.md C06')
 NOT_YET = {}
 
 def main():
